@@ -1,25 +1,34 @@
 #!/usr/bin/env python3
-"""import_seed.py ID VARIANT "description" "caught_by" "how"  -- copy a confirmed seeded change into /verif/seeded"""
+"""import_seed.py ID VARIANT "what it does" "what it needs to manifest" "caught_by (comma list, or NONE)" "how" [demo result text]
+copy a confirmed seeded change from /tmp/seed/out/<ID>/<V> into /verif/seeded/<ID>/<V>"""
 import json, os, shutil, sys, subprocess
-pid, v, desc, caught, how = sys.argv[1:6]
+pid, v, desc, needs, caught, how = sys.argv[1:7]
+demo_result = sys.argv[7] if len(sys.argv) > 7 else ""
 src = f"/tmp/seed/out/{pid}/{v}"
 dst = f"/verif/seeded/{pid}/{v}"
 os.makedirs(dst, exist_ok=True)
 shutil.copy(f"{src}/patch.diff", f"{dst}/patch.diff")
 if os.path.isdir(f"{src}/demo"):
     shutil.rmtree(f"{dst}/demo", ignore_errors=True)
-    shutil.copytree(f"{src}/demo", f"{dst}/demo")
-for f in ("notes.md", "confirm.txt"):
+    shutil.copytree(f"{src}/demo", f"{dst}/demo", ignore=shutil.ignore_patterns("target", "Cargo.lock", "*.o", "work*"))
+for f in ("notes.md",):
     if os.path.exists(f"{src}/{f}"):
         shutil.copy(f"{src}/{f}", f"{dst}/{f}")
-files = subprocess.run(["grep", "-E", r"^\+\+\+ b/", f"{src}/patch.diff"], stdout=subprocess.PIPE).stdout.decode().split()
-files = [x[2:] for x in files if x.startswith("b/")]
-confirm = open(f"{src}/confirm.txt").read() if os.path.exists(f"{src}/confirm.txt") else "not re-run by the author of /verif"
-meta = {"property": pid, "variant": v, "description": desc, "files_touched": files,
-        "base_commit": subprocess.run(["git", "-C", f"/tmp/seed/{pid}", "rev-parse", "--short", "HEAD"], stdout=subprocess.PIPE).stdout.decode().strip(),
-        "confirmed": {"applies_and_builds": True, "existing_suite": confirm.strip(),
-                      "demonstration": "demo/ (output_changed.txt shows the violation, output_original.txt the correct behaviour)"},
-        "caught_by": caught.split(","), "how": how,
-        "apply": "git -C /repo apply --3way seeded/%s/%s/patch.diff ; ./check %s --tier quick ; git -C /repo checkout -- ." % (pid, v, caught.split(",")[0])}
+confirm = open(f"{src}/myconfirm.txt").read() if os.path.exists(f"{src}/myconfirm.txt") else "NOT RE-RUN"
+open(f"{dst}/confirm.txt", "w").write(confirm)
+files = [l.split(" b/", 1)[1].strip() for l in open(f"{src}/patch.diff") if l.startswith("+++ b/")]
+summary = [l.strip() for l in confirm.splitlines() if "Summary" in l or l.startswith("rerun") or "build" in l or "apply" in l]
+meta = {
+    "property": pid, "variant": v, "what_it_does": desc, "needs_to_manifest": needs, "files_touched": files,
+    "base_commit": subprocess.run(["git", "-C", "/repo", "rev-parse", "--short", "HEAD"], stdout=subprocess.PIPE).stdout.decode().strip(),
+    "what_i_ran": [
+        f"tools/seed_confirm.sh {pid} {v}   (fresh worktree of /repo under /tmp/confirm, git apply patch.diff, cargo build --offline with and "
+        "without --features capi, cargo nextest run --workspace --no-fail-fast --test-threads 8 --offline, every failing test re-run alone up to 3 times)",
+        "the demonstration in demo/ against the changed worktree and against /repo (unchanged)",
+        f"tools/seedtest.sh seeded/{pid}/{v}/patch.diff {caught if caught != 'NONE' else pid}   (git -C /repo apply; ./check ... --tier quick; git -C /repo checkout -- .)",
+    ],
+    "confirmed": {"log": summary, "demonstration": demo_result},
+    "caught_by": [] if caught == "NONE" else caught.split(","), "how": how,
+}
 json.dump(meta, open(f"{dst}/meta.json", "w"), indent=1)
 print("imported", dst)
